@@ -40,6 +40,11 @@ class Project(object):
         modules = set()
         path = self.get_path()
 
+        if root and '' in root.split('.'):
+            # 'a.', 'a..b': no module has a name with an empty component, so
+            # nothing can be imported from below it
+            return modules
+
         if root:
             droot = root + '.'
             for package in sys.modules:
@@ -61,7 +66,8 @@ class Project(object):
 
         for pdir in dirs:
             try:
-                dlist = os.listdir(pdir)
+                # ('' on sys.path is the working directory)
+                dlist = os.listdir(pdir or os.curdir)
             except OSError:
                 continue
 
